@@ -30,6 +30,9 @@ type Outcome struct {
 	V  string `json:"v"`  // leaf value (string form)
 }
 
+// ErrSentinel is the shared error value of Outcome{K: "err", V: "sentinel"}.
+var ErrSentinel = gqlerror.Errorf("E:sentinel")
+
 // Event is one line of the trace of a run.
 type Event struct {
 	E string `json:"e"`           // Start | End | Dir | DirEnd | Err | Recover | Cancel | ...
@@ -388,7 +391,13 @@ func (u *Universe) resolver(typ, field string, ft reflect.Type) func([]reflect.V
 		switch out.K {
 		case "err":
 			ret = reflect.Zero(rt)
-			err = errors.New("E:" + path)
+			if out.V == "sentinel" {
+				// one package-level *gqlerror.Error value returned from every such position,
+				// as resolvers do with `var ErrNotFound = gqlerror.Errorf(...)`
+				err = ErrSentinel
+			} else {
+				err = errors.New("E:" + path)
+			}
 		case "panic":
 			run.Log(Event{E: "End", P: path, T: "panic"})
 			panic("P:" + path)
